@@ -16,7 +16,8 @@ import abacusnbody.data.compaso_halo_catalog as chc
 ID = 'C05'
 BOUNDS = {
     'quick': 'one superslab, 2 halos; every halo_info column and every cleaned/progenitor column; raw values free (int16 ratios free ints), '
-             'B and V free positive reals (in particular B != V); convert_units on/off; cleaned on/off',
+             'B and V free positive reals (in particular B != V); convert_units on/off; cleaned on/off'
+             '; also: every ratio column together with its reference column in both orders; integer-typed BoxSize/VelZSpace header with numpy narrow-integer semantics',
     'thorough': 'same (the column set is exhaustive); additionally 3 halos',
 }
 OUTSIDE = 'the halo light-cone layout (its interpolation loader is not modelled); float rounding; the eigenvector decoder (opaque here, C18; eigenvector columns are only required to pass through unchanged)'
